@@ -243,6 +243,8 @@ pub fn build(
                     .type_registry
                     .resolve_grammar_type(&module.scope(), type_)
                 else {
+                    #[cfg(pyxis_verif)]
+                    crate::verif::probe("defer:field_type_unresolved");
                     return Ok(None);
                 };
 
@@ -306,6 +308,8 @@ pub fn build(
     )
     .with_context(|| format!("while processing `{resolvee_path}`"))?
     else {
+        #[cfg(pyxis_verif)]
+        crate::verif::probe("defer:region_size_unknown");
         return Ok(None);
     };
 
